@@ -483,6 +483,36 @@ func c17Layers(c *vlib.Ctx) {
 					c.Violation("E6-parser-short", fmt.Sprintf("parser decoded only %v", dec), hex.EncodeToString(fc.fwd))
 				}
 			}
+			// any layer object that is decoded into again (a caller-owned layer of whatever protocol): decode the reverse
+			// packet, then the forward packet's bytes of the same layer into the same object - the flow must be the
+			// forward packet's, whatever the object cached from the earlier one
+			vlib.Guard(func() {
+				pf := gopacket.NewPacket(fc.fwd, fc.first, gopacket.DecodeOptions{NoCopy: true, DecodeStreamsAsDatagrams: true})
+				pr := gopacket.NewPacket(fc.rev, fc.first, gopacket.DecodeOptions{NoCopy: true, DecodeStreamsAsDatagrams: true})
+				lf, lr := pf.Layers(), pr.Layers()
+				for i := 0; i < len(lf) && i < len(lr); i++ {
+					dl, ok := lr[i].(gopacket.DecodingLayer)
+					if !ok || lf[i].LayerType() != lr[i].LayerType() || len(lf[i].LayerContents()) == 0 {
+						continue
+					}
+					raw := append(append([]byte{}, lf[i].LayerContents()...), lf[i].LayerPayload()...)
+					for round := 0; round < 3; round++ { // several times: state that accumulates shows late
+						if dl.DecodeFromBytes(raw, gopacket.NilDecodeFeedback) != nil {
+							return
+						}
+					}
+					if x, ok := lr[i].(interface{ LinkFlow() gopacket.Flow }); ok && fc.link && i == 0 {
+						c17CheckFlow(c, "redecoded-link", x.LinkFlow(), fc.ltyp, fc.lsrc, fc.ldst, fc.fwd)
+					}
+					if x, ok := lr[i].(interface{ NetworkFlow() gopacket.Flow }); ok && fc.net {
+						c17CheckFlow(c, "redecoded-network", x.NetworkFlow(), fc.ntyp, fc.nsrc, fc.ndst, fc.fwd)
+					}
+					if x, ok := lr[i].(interface{ TransportFlow() gopacket.Flow }); ok && fc.tr {
+						c17CheckFlow(c, "redecoded-transport", x.TransportFlow(), fc.ttyp, fc.tsrc, fc.tdst, fc.fwd)
+					}
+					c.Count("redecoded_layer_flows", 1)
+				}
+			})
 			c.NonTrivial(vlib.HashBytes(fc.fwd))
 			if k == 0 {
 				c.Sample(map[string]any{"stack": fc.name, "bytes": hex.EncodeToString(fc.fwd), "network_flow": nl.NetworkFlow().String()})
